@@ -10,6 +10,7 @@ package main
 
 import (
 	"fmt"
+	"time"
 	"math/big"
 	"sort"
 	"strconv"
@@ -68,6 +69,9 @@ type env struct {
 	inBlock  bool
 	valPool  []uint64 // pool id per validator (0 = none)
 	bk       uint64   // basket the next basket operation addresses
+	valAddr  []string // current validator (operator) address per validator: changes with address rotation
+	live     []int    // account indexes that still hold their funds (not rotated away)
+	nRot     int
 	shareSet map[int64][2]int64
 	notes    []string
 }
@@ -167,9 +171,12 @@ func addTo(m map[key4]*big.Int, k key4, v *big.Int) {
 	}
 }
 
-func (e *env) snap() *snapshot {
-	ctx := e.ctx()
-	app := e.c.App
+func (e *env) snap() *snapshot { return e.snapOf(e.c, e.ctx()) }
+
+// every record is found by iterating the module's store (the keepers' prefix iterators), never by ids the harness remembers:
+// a duplicated or orphaned record counts as a liability
+func (e *env) snapOf(c *abci.Chain, ctx sdk.Context) *snapshot {
+	app := c.App
 	s := &snapshot{bal: map[key2]*big.Int{}, sup: map[int64]*big.Int{}, rec: map[key4]*big.Int{}, sl: map[int64]*big.Int{}}
 	// collectives first: both escrow addresses of a collective are one account of the model
 	colls := app.CollectivesKeeper.GetAllCollectives(ctx)
@@ -214,7 +221,10 @@ func (e *env) snap() *snapshot {
 		// the model reads the share quantity of the redemption rule from the bank supply: it must equal the pool record
 		for _, coin := range p.TotalShareTokens {
 			if sup := app.BankKeeper.GetSupply(ctx, coin.Denom).Amount; !sup.Equal(coin.Amount) {
-				panic(fmt.Sprintf("pool %d: TotalShareTokens %s differs from the bank supply %s", p.Id, coin, sup))
+				// the redemption rule of the model reads the bank supply: a difference shows up as a correspondence mismatch
+				if n := fmt.Sprintf("pool %d (%s): TotalShareTokens %s differs from the bank supply %s", p.Id, p.Validator, coin, sup); len(e.notes) < 20 {
+					e.notes = append(e.notes, n)
+				}
 			}
 		}
 		if !p.Slashed.IsNil() && !p.Slashed.IsZero() {
@@ -252,14 +262,62 @@ func (e *env) snap() *snapshot {
 	for _, rq := range app.CustomGovKeeper.GetAllIdRecordsVerifyRequests(ctx) {
 		addTo(s.rec, key4{2, kTip, int64(rq.Id), e.denID(rq.Tip.Denom)}, rq.Tip.Amount.BigInt())
 	}
+	// dApp bonds: the dApp's TotalBond and the users' bond records describe the same claims; the larger of the two is owed
+	// (a bond record whose dApp is gone still counts)
+	dappTotal, userTotal := map[string]map[string]*big.Int{}, map[string]map[string]*big.Int{}
+	addNamed := func(m map[string]map[string]*big.Int, name string, coin sdk.Coin) {
+		if coin.Denom == "" || coin.Amount.IsNil() {
+			return
+		}
+		if m[name] == nil {
+			m[name] = map[string]*big.Int{}
+		}
+		if m[name][coin.Denom] == nil {
+			m[name][coin.Denom] = new(big.Int)
+		}
+		m[name][coin.Denom].Add(m[name][coin.Denom], coin.Amount.BigInt())
+	}
 	for _, d := range app.Layer2Keeper.GetAllDapps(ctx) {
-		idx, ok := e.dapps[d.Name]
+		addNamed(dappTotal, d.Name, d.TotalBond)
+		if dappTotal[d.Name] == nil {
+			dappTotal[d.Name] = map[string]*big.Int{}
+		}
+	}
+	for _, ub := range app.Layer2Keeper.GetAllUserDappBonds(ctx) {
+		addNamed(userTotal, ub.DappName, ub.Bond)
+	}
+	var dnames []string
+	for n := range dappTotal {
+		dnames = append(dnames, n)
+	}
+	for n := range userTotal {
+		if _, ok := dappTotal[n]; !ok {
+			dnames = append(dnames, n)
+		}
+	}
+	sort.Strings(dnames)
+	for _, n := range dnames {
+		idx, ok := e.dapps[n]
 		if !ok {
 			idx = int64(len(e.dapps) + 1)
-			e.dapps[d.Name] = idx
+			e.dapps[n] = idx
 		}
-		if d.TotalBond.Denom != "" && !d.TotalBond.Amount.IsNil() {
-			addTo(s.rec, key4{9, kDapp, idx, e.denID(d.TotalBond.Denom)}, d.TotalBond.Amount.BigInt())
+		dens := map[string]bool{}
+		for d := range dappTotal[n] {
+			dens[d] = true
+		}
+		for d := range userTotal[n] {
+			dens[d] = true
+		}
+		for d := range dens {
+			v := new(big.Int)
+			if x := dappTotal[n][d]; x != nil {
+				v.Set(x)
+			}
+			if x := userTotal[n][d]; x != nil && x.Cmp(v) > 0 {
+				v.Set(x)
+			}
+			addTo(s.rec, key4{9, kDapp, idx, e.denID(d)}, v)
 		}
 	}
 	for _, rt := range app.RecoveryKeeper.GetAllRecoveryTokens(ctx) {
@@ -444,8 +502,9 @@ type stepInfo struct {
 	err   string
 }
 
-func (e *env) record(si stepInfo, evs []abcitypes.Event) {
-	next := e.snap()
+func (e *env) record(si stepInfo, evs []abcitypes.Event) { e.recordSnap(si, evs, e.snap()) }
+
+func (e *env) recordSnap(si stepInfo, evs []abcitypes.Event, next *snapshot) {
 	b, su, rc, sl, jb := diff(e.prev, next)
 	evc, evj := e.bankEvents(evs)
 	wrap := func(xs []string) string {
@@ -470,10 +529,17 @@ func (e *env) record(si stepInfo, evs []abcitypes.Event) {
 // ---------------------------------------------------------------- step drivers
 func (e *env) begin(dt int64, proposer int) { e.beginBlock(dt, proposer, true) }
 
+func (e *env) nanos() time.Duration {
+	if e.r.Chance(40) {
+		return 0
+	}
+	return time.Duration(e.r.Range(1, 999_999_999))
+}
+
 func (e *env) beginBlock(dt int64, proposer int, rec bool) {
 	c := e.c
 	c.Height++
-	c.Time = c.Time.Add(secs(dt))
+	c.Time = c.Time.Add(secs(dt) + e.nanos()) // block times carry a nanosecond part
 	hdr := tmproto.Header{ChainID: abci.ChainID, Height: c.Height, Time: c.Time}
 	hdr.ProposerAddress = c.Validators[proposer%len(c.Validators)].ConsAddr
 	var votes []abcitypes.VoteInfo
